@@ -394,7 +394,7 @@ func c15xOpener(name string, ext string) (io.Reader, error) {
 	case "gmod":
 		return strings.NewReader(`module gmod { namespace "urn:g"; prefix g; grouping bg { container gc { leaf gx { type string; } } leaf-list gl { type string; } } }`), nil
 	case "m":
-		return strings.NewReader(`module m { namespace "urn:m"; prefix m; import gmod { prefix g; } container c { uses g:bg; leaf own { type string; } list ml { key "k"; leaf k { type string; } } } leaf top { type string; } }`), nil
+		return strings.NewReader(`module m { namespace "urn:m"; prefix m; import gmod { prefix g; } container c { uses g:bg { augment "gc" { leaf back { type string; } } } leaf own { type string; } list ml { key "k"; leaf k { type string; } } } leaf top { type string; } }`), nil
 	case "ext":
 		return strings.NewReader(`module ext { namespace "urn:e"; prefix e; import m { prefix m; }
 			augment "/m:c" { list xl { key "k"; leaf k { type string; } leaf v { type string; } container xin { leaf y { type string; } } } leaf xleaf { type string; } }
@@ -457,6 +457,7 @@ func H_C15_wtr_names_three_modules(s any) {
 	if vpBool() {
 		gc := c.ensureKid(st, "gc")
 		gc.leaves["gx"] = val.String("x")
+		gc.leaves["back"] = val.String("bk") // defined by m inside gmod's container inside m's container
 		if vpBool() {
 			gc.leaves["deep"] = val.String("d")
 		}
